@@ -4,4 +4,4 @@
    extracted model and not hard-wired.  ExtrOcamlBasic only. *)
 Require Import ExtrOcamlBasic.
 From Casbin Require Import Sync Gen.SyncTable.
-Separate Extraction Sync.table_ok Gen.SyncTable.table Gen.SyncTable.race_exceptions.
+Separate Extraction Sync.table_ok Sync.with_result_readers Gen.SyncTable.table Gen.SyncTable.race_exceptions.
